@@ -401,7 +401,7 @@ Lemma r_apply_commits_perm now cs : forall s s' b evs, r_apply_commits now s cs 
 Proof.
   induction cs as [|c cs IH]; intros s s' b evs; cbn [r_apply_commits].
   - intros [= <- <- <-]. reflexivity.
-  - destruct (r_write_tx now s (c_tx c) (c_more c) (c_ok c) None) as [[s1 r] evs1] eqn:W.
+  - destruct (r_write_tx now s (c_tx c) (c_more c) (c_ok c) (Some (c_seq c))) as [[s1 r] evs1] eqn:W.
     pose proof (r_write_tx_perm _ _ _ _ _ _ _ _ _ W) as PW.
     destruct r.
     + destruct (r_apply_commits now s1 cs) as [[s2 b2] evs2] eqn:A. intros [= <- <- <-].
@@ -771,7 +771,7 @@ Proof. unfold rtq_progress. destruct (rq_progress (tq_q t) n). cbn [fst]. apply 
 Inductive log_ok (n0 : N) : list logent -> N -> Prop :=
 | log_nil : log_ok n0 [] n0
 | log_snoc log nxt le : log_ok n0 log nxt -> l_pos le = nxt -> 1 <= l_cnt le ->
-    (forall a, l_assigned le = Some a -> a = nxt) -> log_ok n0 (log ++ [le]) (nxt + l_cnt le).
+    l_assigned le = Some nxt -> log_ok n0 (log ++ [le]) (nxt + l_cnt le).
 
 Definition ev_ok (e : revent) : Prop :=
   match e with
@@ -804,27 +804,28 @@ Proof.
   apply Forall_ev_ok_ans_triv. intros; exact I.
 Qed.
 
-Lemma r_write_tx_ok n0 now s tx more ok ex : rinv n0 s -> (forall k, ex = Some k -> k = r_dbnext s) ->
-  rinv n0 (fst (fst (r_write_tx now s tx more ok ex))) /\ Forall ev_ok (snd (r_write_tx now s tx more ok ex)) /\
-  match snd (fst (r_write_tx now s tx more ok ex)) with
-  | WErr e => fst (fst (r_write_tx now s tx more ok ex)) = s /\ e = EDb
-  | WOk p => p = r_dbnext s /\ r_next s < r_next (fst (fst (r_write_tx now s tx more ok ex)))
+Lemma r_write_tx_ok n0 now s tx more ok k : rinv n0 s ->
+  rinv n0 (fst (fst (r_write_tx now s tx more ok (Some k)))) /\ Forall ev_ok (snd (r_write_tx now s tx more ok (Some k))) /\
+  match snd (fst (r_write_tx now s tx more ok (Some k))) with
+  | WErr e => fst (fst (r_write_tx now s tx more ok (Some k))) = s /\ snd (r_write_tx now s tx more ok (Some k)) = [] /\
+              (k = r_dbnext s -> e = EDb)
+  | WOk p => p = r_dbnext s /\ r_next s < r_next (fst (fst (r_write_tx now s tx more ok (Some k))))
   end.
 Proof.
-  intros I HX. pose proof I as (M & D & L & T). unfold r_write_tx.
-  destruct (db_check (r_dbnext s) ex ok) as [e|] eqn:C; cbn [fst snd].
-  - split; [assumption|]. split; [constructor|]. split; [reflexivity|].
-    unfold db_check in C. destruct ex as [k|].
-    + rewrite (HX k eq_refl), N.eqb_refl in C. destruct ok; congruence.
-    + destruct ok; congruence.
-  - pose proof (rtq_progress_q now (r_tq s) (r_dbnext s + more + 1)) as [H1 H2].
+  intros I. pose proof I as (M & D & L & T). unfold r_write_tx.
+  destruct (db_check (r_dbnext s) (Some k) ok) as [e|] eqn:C; cbn [fst snd].
+  - split; [assumption|]. split; [constructor|]. split; [reflexivity|]. split; [reflexivity|].
+    intros ->. unfold db_check in C. rewrite N.eqb_refl in C. destruct ok; congruence.
+  - assert (K : k = r_dbnext s).
+    { unfold db_check in C. destruct (N.eqb_spec k (r_dbnext s)); [assumption|discriminate]. }
+    pose proof (rtq_progress_q now (r_tq s) (r_dbnext s + more + 1)) as [H1 H2].
     pose proof (rtq_progress_timer now (r_tq s) (r_dbnext s + more + 1)) as TT.
     destruct (rtq_progress now (r_tq s) (r_dbnext s + more + 1)) as [t' st]. cbn [fst snd] in *.
     destruct (rq_progress_ok (tq_q (r_tq s)) (r_dbnext s + more + 1) _ M) as [PM PN]. rewrite <- H1 in PM, PN.
     split; [|split; [apply Forall_ev_ok_stale|split; [reflexivity|]]].
     + unfold rinv, r_map, r_next. cbn [r_tq r_log r_dbnext]. rewrite PN. splits; auto.
-      replace (r_dbnext s + more + 1) with (r_dbnext s + l_cnt (mk_logent (r_dbnext s) tx (more + 1) ex)) by (cbn [l_cnt]; lia).
-      apply log_snoc; cbn [l_pos l_cnt l_assigned]; auto. lia.
+      replace (r_dbnext s + more + 1) with (r_dbnext s + l_cnt (mk_logent (r_dbnext s) tx (more + 1) (Some k))) by (cbn [l_cnt]; lia).
+      apply log_snoc; cbn [l_pos l_cnt l_assigned]; auto; [lia|congruence].
     + unfold r_next at 2. cbn [r_tq]. rewrite PN. lia.
 Qed.
 
@@ -836,15 +837,14 @@ Lemma r_write_buffered_ok n0 now s w : rinv n0 s -> val_ok (r_next s) w ->
   end.
 Proof.
   intros I (V1 & V2 & V3). unfold r_write_buffered.
-  assert (HX : forall k, Some (e_seq w) = Some k -> k = r_dbnext s).
-  { intros k [= <-]. destruct I as (_ & D & _). rewrite D. assumption. }
-  pose proof (r_write_tx_ok n0 now s (e_tx w) (e_more w) (e_ok w) (Some (e_seq w)) I HX) as H.
+  assert (HX : e_seq w = r_dbnext s) by (destruct I as (_ & D & _); rewrite D; assumption).
+  pose proof (r_write_tx_ok n0 now s (e_tx w) (e_more w) (e_ok w) (e_seq w) I) as H.
   destruct (r_write_tx now s (e_tx w) (e_more w) (e_ok w) (Some (e_seq w))) as [[s1 r] evs]. cbn [fst snd] in *.
   destruct H as (I1 & E1 & R). split; [assumption|]. split.
   - apply Forall_app. split; [assumption|]. destruct r as [p|e]; cbn [wres_outcome].
     + destruct R as [-> _]. apply Forall_ev_ok_ans. intros r Hr. cbn [ev_ok].
       rewrite Forall_forall in V3. destruct I as (_ & D & _). rewrite D. apply V3. assumption.
-    + destruct R as [_ ->]. apply Forall_ev_ok_ans_triv. intros; exact Logic.I.
+    + destruct R as (_ & _ & R). rewrite (R HX). apply Forall_ev_ok_ans_triv. intros; exact Logic.I.
   - destruct r; tauto.
 Qed.
 
@@ -1011,21 +1011,16 @@ Qed.
 
 Lemma r_apply_commits_ok n0 now cs : forall s, rinv n0 s ->
   rinv n0 (fst (fst (r_apply_commits now s cs))) /\ Forall ev_ok (snd (r_apply_commits now s cs)) /\
-  (forallb c_ok cs = true -> snd (fst (r_apply_commits now s cs)) = true) /\
   r_next s <= r_next (fst (fst (r_apply_commits now s cs))).
 Proof.
   induction cs as [|c cs IH]; intros s I; cbn [r_apply_commits].
   - cbn [fst snd]. splits; auto; try constructor; lia.
-  - assert (HX : forall k, @None N = Some k -> k = r_dbnext s) by discriminate.
-    pose proof (r_write_tx_ok n0 now s (c_tx c) (c_more c) (c_ok c) None I HX) as H.
-    destruct (r_write_tx now s (c_tx c) (c_more c) (c_ok c) None) as [[s1 r] evs1] eqn:W. cbn [fst snd] in H. destruct H as (I1 & E1 & R).
+  - pose proof (r_write_tx_ok n0 now s (c_tx c) (c_more c) (c_ok c) (c_seq c) I) as H.
+    destruct (r_write_tx now s (c_tx c) (c_more c) (c_ok c) (Some (c_seq c))) as [[s1 r] evs1] eqn:W. cbn [fst snd] in H. destruct H as (I1 & E1 & R).
     destruct r as [p|e].
-    + specialize (IH s1 I1). destruct (r_apply_commits now s1 cs) as [[s2 b2] evs2]. cbn [fst snd] in *. destruct IH as (I2 & E2 & B2 & N2).
-      splits; try assumption. { apply Forall_app; split; assumption. }
-      { intros X. apply andb_prop in X. tauto. } lia.
-    + destruct R as [-> _]. cbn [fst snd]. splits; try assumption; try lia.
-      cbn [forallb]. intros X. apply andb_prop in X. destruct X as [X _].
-      unfold r_write_tx in W. unfold db_check in W. rewrite X in W. destruct (rtq_progress now (r_tq s) (r_dbnext s + c_more c + 1)). discriminate.
+    + specialize (IH s1 I1). destruct (r_apply_commits now s1 cs) as [[s2 b2] evs2]. cbn [fst snd] in *. destruct IH as (I2 & E2 & N2).
+      splits; try assumption. { apply Forall_app; split; assumption. } lia.
+    + destruct R as (-> & _ & _). cbn [fst snd]. splits; try assumption; try lia.
 Qed.
 
 Lemma rinv_update_timer n0 now s : rinv n0 s -> rinv n0 (rs_update_timer now s).
@@ -1040,16 +1035,16 @@ Proof. unfold rs_update_timer, r_next. cbn [rs_with_tq r_tq]. rewrite rtq_update
 
 Lemma r_sync_ok n0 now s res : rinv n0 s ->
   rinv n0 (fst (r_sync now s res)) /\ Forall ev_ok (snd (r_sync now s res)) /\
-  (sync_clean (OpSync now res) -> r_drained s -> r_drained (fst (r_sync now s res))) /\
-  (forall cs, res = Some cs -> forallb c_ok cs = true -> r_drained (fst (r_sync now s res))) /\
+  (step_clean s (OpSync now res) -> r_drained s -> r_drained (fst (r_sync now s res))) /\
+  (forall cs, res = Some cs -> step_clean s (OpSync now res) -> r_drained (fst (r_sync now s res))) /\
   r_next s <= r_next (fst (r_sync now s res)).
 Proof.
-  intros I. unfold r_sync.
+  intros I. unfold r_sync, step_clean.
   assert (I0 : rinv n0 (rs_with_catching s false)) by exact I.
   destruct res as [cs|].
   - pose proof (r_apply_commits_ok n0 now cs _ I0) as H.
-    destruct (r_apply_commits now (rs_with_catching s false) cs) as [[s1 allok] evs1] eqn:A. cbn [fst snd] in H.
-    destruct H as (I1 & E1 & B1 & NN). change (r_next (rs_with_catching s false)) with (r_next s) in NN.
+    destruct (r_apply_commits now (rs_with_catching s false) cs) as [[s1 allok] evs1] eqn:A. cbn [fst snd] in *.
+    destruct H as (I1 & E1 & NN). change (r_next (rs_with_catching s false)) with (r_next s) in NN.
     destruct allok.
     + pose proof (r_pop_next_ok n0 now s1 I1) as H.
       destruct (r_pop_next now s1) as [[s2 w2] evs2]. cbn [fst snd] in H. destruct H as (I2 & E2 & N2 & D2 & V2). rewrite <- N2 in V2.
@@ -1063,8 +1058,8 @@ Proof.
       * rewrite r_next_update_timer. lia.
     + cbn [fst snd]. splits; try assumption.
       * apply rinv_update_timer. assumption.
-      * cbn [sync_clean]. intros X. specialize (B1 X). discriminate.
-      * intros cs' [= <-] X. specialize (B1 X). discriminate.
+      * discriminate.
+      * intros cs' _ X. discriminate.
       * rewrite r_next_update_timer. lia.
   - cbn [fst snd]. splits.
     + apply rinv_update_timer. assumption.
@@ -1079,7 +1074,7 @@ Definition op_ok (o : rop) : Prop := match o with OpDeliver _ rid key _ _ _ => D
 
 Lemma r_step_ok n0 s o : rinv n0 s -> op_ok o ->
   rinv n0 (fst (r_step s o)) /\ Forall ev_ok (snd (r_step s o)) /\
-  (sync_clean o -> r_drained s -> r_drained (fst (r_step s o))) /\ r_next s <= r_next (fst (r_step s o)).
+  (step_clean s o -> r_drained s -> r_drained (fst (r_step s o))) /\ r_next s <= r_next (fst (r_step s o)).
 Proof.
   intros I O. destruct o as [now rid key tx more ok|now p|now res]; cbn [r_step].
   - destruct (r_deliver_ok n0 now s rid key tx more ok I O) as (A & B & C & _ & _ & E). splits; auto.
@@ -1089,9 +1084,9 @@ Qed.
 
 Lemma r_run_ok n0 ops : forall s, rinv n0 s -> Forall op_ok ops ->
   rinv n0 (fst (r_run s ops)) /\ Forall ev_ok (snd (r_run s ops)) /\
-  (Forall sync_clean ops -> r_drained s -> r_drained (fst (r_run s ops))) /\ r_next s <= r_next (fst (r_run s ops)).
+  (run_clean s ops -> r_drained s -> r_drained (fst (r_run s ops))) /\ r_next s <= r_next (fst (r_run s ops)).
 Proof.
-  induction ops as [|o ops IH]; intros s I O; cbn [r_run].
+  induction ops as [|o ops IH]; intros s I O; cbn [r_run run_clean].
   - cbn [fst snd]. splits; auto; try constructor; lia.
   - inversion O as [|? ? O1 O2]; subst.
     destruct (r_step_ok n0 s o I O1) as (A & B & C & E).
@@ -1100,7 +1095,7 @@ Proof.
     destruct (r_run s1 ops) as [s2 evs2]. cbn [fst snd] in *.
     splits; auto.
     + apply Forall_app; split; assumption.
-    + intros SC Dr. inversion SC; subst. auto.
+    + intros [SC1 SC2] Dr. auto.
     + lia.
 Qed.
 
@@ -1119,7 +1114,7 @@ Qed.
 Lemma run0_ok n0 limit T Tc ops :
   rinv (delivered ops) n0 (fst (r_run0 n0 limit T Tc ops)) /\
   Forall (ev_ok (delivered ops)) (snd (r_run0 n0 limit T Tc ops)) /\
-  (Forall sync_clean ops -> r_drained (fst (r_run0 n0 limit T Tc ops))).
+  (run_clean (r_init n0 limit T Tc) ops -> r_drained (fst (r_run0 n0 limit T Tc ops))).
 Proof.
   destruct (r_run_ok (delivered ops) n0 ops (r_init n0 limit T Tc) (rinv_init _ n0 limit T Tc) (ops_all_delivered ops))
     as (A & B & C & _).
@@ -1138,7 +1133,7 @@ Qed.
 Lemma no_stale_pending n0 limit T Tc ops k e :
   In (k, e) (r_map (fst (r_run0 n0 limit T Tc ops))) ->
   r_next (fst (r_run0 n0 limit T Tc ops)) <= k /\
-  (Forall sync_clean ops -> r_next (fst (r_run0 n0 limit T Tc ops)) < k).
+  (run_clean (r_init n0 limit T Tc) ops -> r_next (fst (r_run0 n0 limit T Tc ops)) < k).
 Proof.
   intros HI. destruct (run0_ok n0 limit T Tc ops) as (((M1 & _) & _) & _ & Dr).
   rewrite Forall_forall in M1. specialize (M1 _ HI). cbn [fst] in M1. split; [assumption|].
@@ -1147,7 +1142,7 @@ Proof.
   exfalso. rewrite E in Dr. exact (m_find_of_In _ _ _ HI Dr).
 Qed.
 
-Lemma buffer_drain n0 limit T Tc ops : Forall sync_clean ops -> r_drained (fst (r_run0 n0 limit T Tc ops)).
+Lemma buffer_drain n0 limit T Tc ops : run_clean (r_init n0 limit T Tc) ops -> r_drained (fst (r_run0 n0 limit T Tc ops)).
 Proof. intros SC. apply (run0_ok n0 limit T Tc ops). assumption. Qed.
 
 (** whatever happened before (even an aborted catch-up): a write the queue takes, and a catch-up answer
@@ -1157,8 +1152,8 @@ Lemma buffer_drain_step n0 limit T Tc ops :
   (forall now rid key tx more ok,
      ins_accepted (snd (rq_insert (tq_q (r_tq s)) key (mk_rentry tx key more ok [(rid, now)]))) = true ->
      r_drained (fst (r_deliver now s rid key tx more ok))) /\
-  (forall now cs, forallb c_ok cs = true -> r_drained (fst (r_sync now s (Some cs)))) /\
-  (forall o, sync_clean o -> r_drained s -> r_drained (fst (r_step s o))).
+  (forall now cs, step_clean s (OpSync now (Some cs)) -> r_drained (fst (r_sync now s (Some cs)))) /\
+  (forall o, step_clean s o -> r_drained s -> r_drained (fst (r_step s o))).
 Proof.
   intros s. destruct (run0_ok n0 limit T Tc ops) as (I & _). fold s in I. splits.
   - intros now rid key tx more ok A.
@@ -1191,10 +1186,10 @@ Qed.
 Lemma log_ok_contig n0 log nxt : log_ok n0 log nxt -> log_contig n0 log nxt.
 Proof. induction 1; [reflexivity|]. apply log_contig_snoc; assumption. Qed.
 Lemma log_ok_assigned n0 log nxt : log_ok n0 log nxt ->
-  forall le a, In le log -> l_assigned le = Some a -> l_pos le = a.
+  forall le, In le log -> l_assigned le = Some (l_pos le).
 Proof.
-  induction 1 as [|log nxt le0 L IH P C A]; [intros ? ? []|].
-  intros le a HI HA. apply in_app_or in HI. destruct HI as [HI|[<-|[]]]; [eauto|]. rewrite (A _ HA). assumption.
+  induction 1 as [|log nxt le0 L IH P C A]; [intros ? []|].
+  intros le HI. apply in_app_or in HI. destruct HI as [HI|[<-|[]]]; [eauto|]. rewrite P. assumption.
 Qed.
 
 (** an append happens only at the sequence the coordinator assigned, which is the replicator's [next]:
@@ -1204,7 +1199,7 @@ Lemma apply_at_assigned n0 limit T Tc ops :
   let s := fst (r_run0 n0 limit T Tc ops) in
   let evs := snd (r_run0 n0 limit T Tc ops) in
   log_contig n0 (r_log s) (r_dbnext s) /\
-  (forall le a, In le (r_log s) -> l_assigned le = Some a -> l_pos le = a) /\
+  (forall le, In le (r_log s) -> l_assigned le = Some (l_pos le)) /\
   r_dbnext s = r_next s /\
   (forall rid, ~ In (EvAns rid (OErr EWrongSeq)) evs) /\
   (forall rid pos, In (EvAns rid (OApplied pos)) evs -> In (rid, pos) (ops_deliveries ops)).
